@@ -1043,9 +1043,11 @@ func (val Value) HasIndex(key Value) Value {
 //
 // This method will panic if the receiver is not a set, or if it is a null set.
 func (val Value) HasElement(elem Value) Value {
-	if val.IsMarked() || elem.IsMarked() {
-		val, valMarks := val.Unmark()
-		elem, elemMarks := elem.Unmark()
+	if val.ContainsMarked() || elem.ContainsMarked() {
+		// (deeply: a mark inside the given value must not reach the set's
+		// hashing and equivalence rules)
+		val, valMarks := val.UnmarkDeep()
+		elem, elemMarks := elem.UnmarkDeep()
 		return val.HasElement(elem).WithMarks(valMarks, elemMarks)
 	}
 
